@@ -275,6 +275,27 @@ def memo_key_defect(o: Outcome) -> Optional[Tuple[str, str]]:
     return None
 
 
+def replay_judge(judge):
+    """The contract of a case, for the second of two calls: the same contract, and - a repetition in the same state
+    gives an equal result and leaves the result handed out before as it was; after a change of the ambient state the
+    result equals what a recomputation with nothing memoised gives in that state."""
+    def wrapped(o: Outcome):
+        how = getattr(o, "replay", None)
+        if how is None:
+            return judge(o)
+        if o.first[0] == "return" and o.first_after != o.first:
+            return ("a later call changes the result an earlier call handed out",
+                    f"first result {o.first!r}; after the call was repeated it is {o.first_after!r}")
+        if how == "same" and o.second != o.first:
+            return ("repeating the call in the same state gives another result",
+                    f"first {o.first!r}, second {o.second!r}")
+        if how == "epoch" and o.second != o.cold:
+            return ("a memoised result is replayed although the state it was computed in has changed",
+                    f"the repeated call gives {o.second!r}; computed anew in the current state it is {o.cold!r}")
+        return judge(o)
+    return wrapped
+
+
 class CaseRunner:
     """Runs a function on a case and files obligations/violations in a Result."""
 
@@ -285,6 +306,44 @@ class CaseRunner:
         self.res = res
         self.max_depth = max_depth
 
+    # entry points whose contract is to change the state: calling them twice is another scenario, not a repetition
+    MUTATORS = {"new_unit", "derive_unit_from", "register_converter", "remove_converter", "update", "register_currency",
+                "register_item", "__init__", "__enter__", "__exit__", "__init_subclass__", "__set_name__"}
+
+    def replayable(self, fi: FuncInfo) -> bool:
+        """Does the function (or anything it reaches) keep something from one call to the next - a memoising
+        decorator, or a store outside construction time?  Then its cases are also evaluated as repeated calls."""
+        memo = getattr(self, "_replay_memo", None)
+        if memo is None:
+            memo = self._replay_memo = {}
+        if fi.qualname in memo:
+            return memo[fi.qualname]
+        ok = False
+        try:
+            from .effects import CallGraph, inventory
+            from .purity import _construction_time
+            from .interp import _memoised
+            if getattr(self, "_cg", None) is None:
+                self._cg = CallGraph(self.prog)
+                self._writes = inventory(self.prog, sorted(self.prog.modules))
+            cg = self._cg
+            metas = ("QuantityMeta", "MoneyMeta", "ClassWithDefinitionMeta")
+            if fi.name in self.MUTATORS or (fi.cls is not None and fi.cls.name in metas and fi.name in ("__new__", "__call__")) \
+                    or fi.qualname not in cg.funcs or fi.name.startswith("_make"):
+                ok = False
+            else:
+                # (operators are dispatched dynamically, so "what it reaches" is the whole package: any function
+                # that keeps something between calls may be behind any operation)
+                if getattr(self, "_pkg_keeps", None) is None:
+                    self._pkg_keeps = any(_memoised(f) for f in cg.funcs.values()) or \
+                        any(w.fi is not None and not _construction_time(w.fi.qualname, cg) and
+                            w.fi.name not in self.MUTATORS for w in self._writes)
+                ok = self._pkg_keeps
+        except AnalysisError:
+            ok = False
+        memo[fi.qualname] = ok
+        return ok
+
     def fn(self, cls, name) -> FuncInfo:
         return self.prog.method(cls, name) if cls else self.prog.function("quantity", name)
 
@@ -292,7 +351,7 @@ class CaseRunner:
             flag_kinds=("float-arith", "int-div", "int-neg-pow", "none-operand", "none-attribute",
                         "bad-unpack", "bad-amount", "float-call", "math-call", "int-truncation",
                         "missing-attribute", "unbound-name", "bad-isinstance"),
-            min_paths=1, site=None, **kw) -> List[Outcome]:
+            min_paths=1, site=None, no_replay=False, **kw) -> List[Outcome]:
         # a subclass elsewhere in the package that overrides the analysed method is held to the same contract
         # (Money / Currency / MoneyMeta are reached by dynamic dispatch on the money flavour instead)
         if fi.cls is not None and not getattr(self, "_in_override", False):
@@ -309,6 +368,17 @@ class CaseRunner:
                 finally:
                     self._in_override = False
         outs = run_case(self.prog, fi, setup, max_depth=self.max_depth, **kw)
+        if not no_replay and not kw.get("replay") and not kw.get("cache_hits") and not getattr(self, "_in_replay", False) \
+                and self.replayable(fi):
+            self._in_replay = True
+            try:
+                import os as _os
+                cap = 120 if _os.environ.get("QSA_TIER", "quick") == "quick" else None
+                for how, label in (("same", "repeated"), ("epoch", "repeated after the ambient state changed")):
+                    self.run(rule, fi, f"{case} [{label}]", setup, replay_judge(judge), flag_kinds=flag_kinds,
+                             min_paths=min_paths, site=site, replay=how, path_cap=cap, **kw)
+            finally:
+                self._in_replay = False
         res = self.res
         site = site or fi.qualname
         res.functions.add(fi.qualname)
